@@ -102,7 +102,13 @@ def guarded(fn):
         with warnings.catch_warnings():
             warnings.simplefilter("ignore")
             return canon(fn())
-    except (KeyboardInterrupt, SystemExit, MemoryError):
+    except (KeyboardInterrupt, SystemExit):
+        raise
+    except MemoryError as e:
+        # numpy refusing an absurd allocation request (a wrong size computed from a small input) is behaviour of the
+        # implementation; the harness itself running out of memory is not
+        if type(e).__qualname__ == "_ArrayMemoryError":
+            return refuse(e)
         raise
     except BaseException as e:  # noqa
         return refuse(e)
@@ -440,6 +446,15 @@ def _main(prop, pid, tier, seed, replay, t0):
     kernels = effective_kernels(prop)
     st = lean_phase(pid, prop.LEAN_MODULES, kernels, tier, gen_proofs=getattr(prop, "GEN_PROOFS", ()),
                     extras=getattr(prop, "KERNEL_EXTRAS", ()))
+
+    # the implementation runs under an address-space limit: a wrong size computed from a small input must fail fast
+    # (numpy's _ArrayMemoryError, a refusal) instead of filling the machine's memory
+    try:
+        import resource
+        lim = int(os.environ.get("VERIF_AS_LIMIT_GB", "24")) << 30
+        resource.setrlimit(resource.RLIMIT_AS, (lim, lim))
+    except Exception:
+        pass
 
     # ---------------- cases
     if replay:
